@@ -23,7 +23,9 @@ pub fn generate_queries(
         })
         .collect();
 
+    // Sort and remove repetitions: the query indices must be strictly increasing.
     samples.sort();
+    samples.dedup();
     samples
 }
 
